@@ -15,19 +15,20 @@ EXTENDS MpdSignalOps, Json
 CONSTANTS
    Modes, Assets,            \* used with single parameters
    PairModes, PairAssets,    \* used with pairs and triples
-   SingleAll                 \* TRUE: all value classes singly; FALSE: the pair classes only (smoke)
+   SingleAll,                \* TRUE: all value classes singly; FALSE: the pair classes only (smoke)
+   BigTimeline               \* TRUE: tsbd_172800 also with a SegmentTimeline (86400 S-expanded segments per AdaptationSet)
 
 VARIABLE r
 
-KeySeq == <<"tsbd", "mup", "spd", "start", "ast", "startrel", "stoprel", "utc", "ato", "chunkdur", "ltgt", "patch",
-            "timesubsstpp", "timesubswvtt", "scte35", "annexI", "traffic", "periods", "continuous", "eccp">>
-\* (drm_<name> needs a server with a DRM configuration file; it shares everything with eccp in the oracle and is
-\*  not generated)
-ASSUME SeqSet(KeySeq) = Keys \ {"drm"} /\ Len(KeySeq) = Cardinality(Keys) - 1
+KeySeq == <<"tsbd", "mup", "spd", "snr", "start", "ast", "startrel", "stoprel", "utc", "ato", "chunkdur", "ltgt", "patch",
+            "timesubsstpp", "timesubswvtt", "scte35", "annexI", "traffic", "periods", "continuous", "eccp", "drm">>
+\* (drm_<name>: requests with drm_ go to a second server instance that has the repository's test DRM configuration)
+ASSUME SeqSet(KeySeq) = Keys /\ Len(KeySeq) = Cardinality(Keys)
 NK == Len(KeySeq)
 
 ClassesOf(k) ==
    CASE k = "tsbd" -> {"0", "1", "typ", "max"}      [] k = "mup" -> {"1", "typ", "big"}      [] k = "spd" -> {"0", "typ"}
+     [] k = "snr" -> {"0", "1", "typ", "m1"}
      [] k = "start" -> {"1", "typ"}                 [] k = "ast" -> {"typ"}                  [] k = "startrel" -> {"m1", "typ"}
      [] k = "stoprel" -> {"typ"}
      [] k = "utc" -> UtcMethods \cup {"none", "keep", "multi", "all"}
@@ -36,10 +37,11 @@ ClassesOf(k) ==
      [] k \in {"timesubsstpp", "timesubswvtt"} -> {"one", "two", "three"}
      [] k = "scte35" -> {"1", "2", "3"}             [] k = "annexI" -> {"one", "two"}        [] k = "traffic" -> {"one", "two", "three"}
      [] k = "periods" -> {"typ", "alt"}             [] k = "continuous" -> {"1"}             [] k = "eccp" -> {"cenc", "cbcs"}
+     [] k = "drm" -> {"k1", "k2"}
 PairClass(k) ==
-   CASE k \in {"tsbd", "mup", "spd", "start", "ast", "startrel", "stoprel", "ato", "chunkdur", "ltgt", "patch", "periods"} -> "typ"
+   CASE k \in {"tsbd", "mup", "spd", "snr", "start", "ast", "startrel", "stoprel", "ato", "chunkdur", "ltgt", "patch", "periods"} -> "typ"
      [] k = "utc" -> "multi"   [] k \in {"timesubsstpp", "timesubswvtt", "traffic", "annexI"} -> "two"
-     [] k = "scte35" -> "2"    [] k = "continuous" -> "1"   [] k = "eccp" -> "cbcs"
+     [] k = "scte35" -> "2"    [] k = "continuous" -> "1"   [] k = "eccp" -> "cbcs"   [] k = "drm" -> "k2"
 
 \* representative concrete values for the model (the driver draws seeded ones from the same classes)
 Langs == <<"en", "sv", "de">>
@@ -49,6 +51,7 @@ Apply(c, p) ==
    CASE p.k = "tsbd" -> [c EXCEPT !.tsbd = CASE p.c = "0" -> 0 [] p.c = "1" -> 1 [] p.c = "typ" -> 30 [] p.c = "max" -> 172800]
      [] p.k = "mup"  -> [c EXCEPT !.mup = CASE p.c = "1" -> 1 [] p.c = "typ" -> 7 [] p.c = "big" -> 100000]
      [] p.k = "spd"  -> [c EXCEPT !.spd = CASE p.c = "0" -> 0 [] p.c = "typ" -> 12]
+     [] p.k = "snr"  -> [c EXCEPT !.snr = CASE p.c = "0" -> 0 [] p.c = "1" -> 1 [] p.c = "typ" -> 44 [] p.c = "m1" -> -1]
      [] p.k = "start" -> [c EXCEPT !.start = CASE p.c = "1" -> 1 [] p.c = "typ" -> 1000, !.startkey = "start"]
      [] p.k = "ast"  -> [c EXCEPT !.start = 1000, !.startkey = "ast"]
      [] p.k = "startrel" -> [c EXCEPT !.startrel = CASE p.c = "m1" -> -1 [] p.c = "typ" -> -600]
@@ -68,6 +71,7 @@ Apply(c, p) ==
      [] p.k = "periods" -> [c EXCEPT !.periods = CASE p.c = "typ" -> 60 [] p.c = "alt" -> 30]
      [] p.k = "continuous" -> [c EXCEPT !.continuous = TRUE]
      [] p.k = "eccp" -> [c EXCEPT !.eccp = p.c]
+     [] p.k = "drm" -> [c EXCEPT !.drm = "pkg-" \o p.c]
 Concrete(parts) == LET C[i \in 0..Len(parts)] == IF i = 0 THEN NoCfg ELSE Apply(C[i-1], parts[i]) IN C[Len(parts)]
 
 \* model environments per asset class (the driver takes the real ones from its own parse of the VoD MPD)
@@ -84,6 +88,7 @@ EnvOf(asset, mode, parts) ==
     vodUtc |-> IF asset = "utcvod" THEN <<<<"urn:mpeg:dash:utc:http-head:2014", "https://vod.example/time">>,
                                           <<"urn:mpeg:dash:utc:direct:2014", "">>>> ELSE <<>>,
     host |-> "http://h",
+    drmScheme |-> "cbcs",
     url |-> <<[k |-> "", raw |-> "livesim2"]>> \o [i \in 1..Len(parts) |-> [k |-> parts[i].k, raw |-> parts[i].k \o "_" \o parts[i].c]]
                \o <<[k |-> "", raw |-> asset], [k |-> "", raw |-> "Manifest.mpd"]>>]
 Now0 == <<1700000000, 500>>
@@ -93,10 +98,10 @@ Part(k, cl) == [k |-> k, c |-> cl]
 Valid(q) == /\ ValidCfg(Concrete(q.parts), q.mode)
             /\ \A i, j \in DOMAIN q.parts : i # j => (q.parts[i].k # q.parts[j].k /\ ~Exclusive(q.parts[i].k, q.parts[j].k))
             /\ (\E i \in DOMAIN q.parts : q.parts[i].k = "periods") => q.asset \notin {"irr"}      \* C06 covers varying durations
-            /\ (\E i \in DOMAIN q.parts : q.parts[i].k = "utc" /\ q.parts[i].c = "keep") => TRUE
+            /\ (\E i \in DOMAIN q.parts : q.parts[i].k = "tsbd" /\ q.parts[i].c = "max") => (BigTimeline \/ q.mode = "number")
 
 Singles ==
-   \E k \in Keys \ {"drm"} : \E cl \in (IF SingleAll THEN ClassesOf(k) ELSE {PairClass(k)}), m \in Modes, a \in Assets :
+   \E k \in Keys : \E cl \in (IF SingleAll THEN ClassesOf(k) ELSE {PairClass(k)}), m \in Modes, a \in Assets :
       r = Rec(m, a, <<Part(k, cl)>>)
 Pairs ==
    \E i \in 1..NK, j \in 1..NK, m \in PairModes, a \in PairAssets :
@@ -148,8 +153,10 @@ Ideal(c, e, now) ==
               \cup (IF e.vodId # "" THEN {Fa("", "MPD", "@id", "", "", e.vodId)}
                     ELSE IF c.patch > 0 THEN {Fa("", "MPD", "@id", "", "", "auto")} ELSE {})
        Common(p, j, sc, key) ==      \* what every AdaptationSet (VoD or generated) carries
-              (IF e.mode = "number" THEN {Fa(p, sc, "SegmentTemplate@startNumber", key, "SegmentTemplate[1]", IF c.periods = 0 THEN "0" ELSE ToString(j))}
-               ELSE {Fa(p, sc, "SegmentTemplate/SegmentTimeline/S@t", key, "SegmentTemplate[1]/SegmentTimeline[1]/S[1]", tlv \o p)})
+              (IF e.mode = "number" THEN (IF EffSnr(c) = -1 /\ c.periods = 0 THEN {}
+                                          ELSE {Fa(p, sc, "SegmentTemplate@startNumber", key, "SegmentTemplate[1]", ToString(EffSnr(c) + (IF c.periods = 0 THEN 0 ELSE j)))})
+               ELSE {Fa(p, sc, "SegmentTemplate/SegmentTimeline/S@t", key, "SegmentTemplate[1]/SegmentTimeline[1]/S[1]", tlv \o p)}
+                    \cup (IF e.mode = "tlnr" THEN {Fa(p, sc, "SegmentTemplate@startNumber", key, "SegmentTemplate[1]", ToString(EffSnr(c) + 7))} ELSE {}))
               \cup (IF c.periods # 0 THEN {Fa(p, sc, "SegmentTemplate@presentationTimeOffset", key, "SegmentTemplate[1]", ToString(j))} ELSE {})
               \cup (IF c.continuous THEN {Fa(p, sc, CONT \o "@schemeIdUri", key, CONT \o "[1]", "urn:mpeg:dash:period-continuity:2015"),
                                           Fa(p, sc, CONT \o "@value", key, CONT \o "[1]", "1")} ELSE {})
@@ -171,9 +178,9 @@ Ideal(c, e, now) ==
                          Fa(p, sc, EP \o "/UrlQueryInfo@useMPDUrlQuery", key, EP \o "[1]/UrlQueryInfo[1]", "true"),
                          Fa(p, sc, EP \o "/UrlQueryInfo@queryTemplate", key, EP \o "[1]/UrlQueryInfo[1]", "$querypart$")}
                    ELSE {})
-             \cup (IF ct \in {"video", "audio"} /\ c.eccp # ""
+             \cup (IF ct \in {"video", "audio"} /\ (c.eccp # "" \/ c.drm # "")
                    THEN {Fa(p, sc, "ContentProtection@schemeIdUri", key, MP4P, "urn:mpeg:dash:mp4protection:2011"),
-                         Fa(p, sc, "ContentProtection@value", key, MP4P, c.eccp),
+                         Fa(p, sc, "ContentProtection@value", key, MP4P, CencScheme(c, e)),
                          Fa(p, sc, "ContentProtection@default_KID", key, MP4P, "kid:" \o RawPath(e)),
                          Fa(p, sc, "ContentProtection@schemeIdUri", key, "ContentProtection{urn:uuid:ck}[1]", "urn:uuid:ck"),
                          Fa(p, sc, "ContentProtection/Laurl#text", key, "ContentProtection{urn:uuid:ck}[1]/Laurl[1]", e.host \o RawPath(e) \o "/eccp.json")}
@@ -207,6 +214,7 @@ Removable(k) == ValidCfg(Remove(Cfg, k), r.mode)
 Sensitive(k) ==
    /\ Removable(k)
    /\ k # "periods"
+   /\ (k = "snr" => (r.mode = "number" /\ Cfg.periods = 0 /\ Cfg.snr # 0))
    /\ (k = "ltgt" => LowLat(Cfg))
    /\ (k = "patch" => Cfg.patch > 0)
    /\ (k = "utc" => Cfg.utc \notin {<<"httpxsdate">>, <<"httpxsdatems">>, <<"httpiso">>, <<"httpisoms">>, <<"keep">>})
